@@ -238,14 +238,14 @@ class Output(BaseOutput):
         self.nc.variables["time"][self.local_record_count] = self.timer.nctime()
 
         if self.layout == "dense":
-            # Fill out state.alive, False for unborn particles
-            has_value = np.full(len(state), False)
-            has_value[: len(state)] = state.alive
+            # Column = particle identifier, independent of removal of dead particles
+            alive = state.alive
+            pid = state.pid[alive]
             for var in self.instance_variables:
-                # values = getattr(state, var)
-                self.nc.variables[var][self.local_record_count, has_value] = getattr(
-                    state, var
-                )[state.alive]
+                if len(pid) > 0:
+                    self.nc.variables[var][self.local_record_count, pid] = getattr(
+                        state, var
+                    )[alive]
         elif self.layout == "sparse":
             count = len(state)  # Present number of particles
             start = self.local_instance_count
@@ -258,8 +258,9 @@ class Output(BaseOutput):
         if self.lonlat:
             lon, lat = self.xy2ll(state.X, state.Y)
             if self.layout == "dense":
-                self.nc.variables["lon"][self.local_record_count, :] = lon
-                self.nc.variables["lat"][self.local_record_count, :] = lat
+                if len(pid) > 0:
+                    self.nc.variables["lon"][self.local_record_count, pid] = lon[alive]
+                    self.nc.variables["lat"][self.local_record_count, pid] = lat[alive]
             elif self.layout == "sparse":
                 self.nc.variables["lon"][start:end] = lon
                 self.nc.variables["lat"][start:end] = lat
